@@ -98,6 +98,7 @@ func (r structReflect) update(fieldEntry *FieldCacheEntry, key string, oldVal, n
 			panic("ParentMapKey must not be nil if ParentMap is not nil")
 		}
 		replacement := reflect.New(r.Value.Type()).Elem()
+		replacement.Set(r.Value)
 		fieldEntry.GetFrom(replacement).Set(newVal)
 		r.ParentMap.SetMapIndex(*r.ParentMapKey, replacement)
 		return
